@@ -181,9 +181,14 @@ class Oracle:
     peek/pop, no fault lines.  `want` selects which findings count for the
     property."""
 
-    def __init__(self, want):
+    def __init__(self, want, strict_late=False):
         self.want = want
         self.light = not (set(want) & {"wf", "order", "extreme", "sorted"})
+        # known finding F8 (known_findings.json): a priority written through a reference that
+        # outlived its iter_mut iterator is never re-sifted.  Registers in that condition are
+        # excluded from the order / extreme judgements (strict_late: judged all the same, used
+        # to confirm that the listed finding still reproduces on its witness)
+        self.strict_late = strict_late
 
     def start(self, header):
         self.prev = {}
@@ -214,6 +219,9 @@ class Oracle:
             pass
         elif name == "itermut" and "forget" in toks[3:4]:
             self.unordered.add(int(toks[1]))
+        elif name == "latewrite":
+            if not self.strict_late:
+                self.unordered.add(int(toks[1]))
         elif name in ("retain", "retainmut", "convert", "clear", "drain", "new", "fromvec", "fromiter",
                       "deser", "withcap") or (name == "itermut" and "forget" not in toks[3:4]):
             self.unordered.discard(int(toks[2]) if name in ("new", "fromvec", "fromiter", "deser", "withcap") else int(toks[1]))
@@ -576,6 +584,12 @@ class ContentOracle(Oracle):
                 want = "optp -" if name == "getprio" else "opte -"
             if out != want:
                 return "%s returned %r, expected %r" % (name, out, want)
+            return self.same(a, exp, name)
+        if name == "latewrite":
+            exp = dict(bm)
+            if b and t[2] != "-":
+                k0, pl0, _ = b[0]
+                exp[k0] = (pl0, pv(t[2]))
             return self.same(a, exp, name)
         if name == "len":
             return None if out == "nat %d" % len(bm) else "len returned %r for %d items" % (out, len(bm))
